@@ -1,5 +1,6 @@
 import Tup.Lemmas.Config
 import Tup.Lemmas.ConfigLayers
+import Tup.Lemmas.ConfigToml
 /-!
   C17 — configuration layers resolve by fixed precedence and round-trip through TOML.
 
@@ -264,6 +265,96 @@ theorem same_text_every_layer_partial (sd : String) :
     have hp : pyInt n.repr = some (n : Int) := pyInt_repr n
     rcases hty with hty | hty <;>
       simp [normalizeString, convertScalar, scalarTypes, hty, h1, h2, h3, h4, h5, hp]
+
+/-- `same_text_every_layer_partial`, last clause, extended to **negative integers**: for every option of type
+    `int` or `int | 'auto'` and every integer `i` (sign included), the decimal text of `i` is converted to `i`,
+    and text and native value are the same to `validate_and_normalize` — accepted to the same value or rejected
+    alike by the range constraints (`max_cols`, `max_rows`).  (Not so for `background`, whose type also admits
+    `str`: `_convert_scalar` converts only `isdecimal()` texts there, so `-5` stays the string `"-5"`.) -/
+theorem same_text_every_layer_partial_int (sd : String) :
+    ∀ o ∈ Tup.Gen.options, (o.ty = [.base .int] ∨ o.ty = [.base .int, .base (.lit "auto")]) → ∀ i : Int,
+      normalizeString sd o (toString i) = some (.int i) ∧
+      normalizeOpt sd o (.str (toString i)) = normalizeOpt sd o (.int i) := by
+  intro o ho hty i
+  have hn : ∀ o ∈ Tup.Gen.options, (o.ty = [.base .int] ∨ o.ty = [.base .int, .base (.lit "auto")]) →
+      o.name ≠ "cell_size" ∧ o.name ≠ "default_cell_size" ∧ o.name ≠ "id_database_dir" ∧
+      o.name ≠ "upload_method" ∧ o.name ≠ "supported_formats" := by decide
+  exact normalizeOpt_int_text sd hty (hn o ho hty) i
+
+/-! ### TOML round trip on the typed-value channel -/
+
+/-- the four printer/parser theorems above, bundled -/
+theorem printer_parser : PrinterParser where
+  sub := printer_parser_subspace
+  size := printer_parser_size
+  space := fun s hs => (printer_parser_space s hs).1
+  medium := fun m => (printer_parser_medium m).1
+
+/-- **`load ∘ dump = id`, option by option.** For every option `o` of the (regenerated) table and every
+    value `v` the configuration can hold for it — a result of `validate_and_normalize` on any raw value from
+    any layer —: what `to_toml_string` hands to `toml.dumps` (`dumpValue`: the string forms of `id_subspace`,
+    `id_space`, the cell sizes and the `upload_method` letter, native values otherwise), handed back by
+    `toml.loads` to `override_from_toml_string`, normalises to `v` again.
+    Hypotheses: the dumped value is one TOML has (`tomlNative`: string, integer, float, boolean, array — the
+    domain on which the `toml` package is trusted as the identity; this excludes `None` and the `bytes` /
+    formatting objects `background` may hold) and objects are constructible (`objOk`: one of the five
+    `IDSpace` members, a range the `IDSubspace` constructor accepts). -/
+theorem toml_roundtrip (sd : String) :
+    ∀ o ∈ Tup.Gen.options, ∀ raw v : Val, normalizeOpt sd o raw = .ok v →
+      tomlNative (dumpValue o.name v) = true → objOk v = true →
+      normalize sd o.name (dumpValue o.name v) = .ok v := by
+  intro o ho raw v h hnat hobj
+  unfold normalize
+  rw [lookupOpt_self o ho]
+  exact normalizeOpt_dumpValue printer_parser table_facts sd ho h hnat hobj
+
+/-- the per-option dump of `to_toml_string` is the shape-directed `dumpVal` of the model (the function the
+    dynamic check compares with the real `to_toml_string`) on every value the configuration can hold -/
+theorem toml_dump_is_model_dump (sd : String) :
+    ∀ o ∈ Tup.Gen.options, ∀ raw v : Val, normalizeOpt sd o raw = .ok v → dumpValue o.name v = dumpVal v := by
+  intro o ho raw v h
+  exact dumpValue_eq_dumpVal object_facts ho (effective_spec table_facts ho h).1
+
+/-- **`load ∘ dump = id`, the whole configuration.** Let `c` be a configuration object whose every entry
+    holds a value `validate_and_normalize` can return for that option and that TOML can carry. Loading
+    `c`'s dump into any configuration object `c0` (`override_from_toml_string`, checked for unknown keys as
+    `override_from_toml_file` does) succeeds, and afterwards every option has the value it has in `c`. -/
+theorem toml_roundtrip_config (sd path : String) (c c0 : Cfg)
+    (hc : c.names = Tup.Gen.options.map (·.name)) (hc0 : c0.names = Tup.Gen.options.map (·.name))
+    (heff : ∀ e ∈ c, ∃ o ∈ Tup.Gen.options, o.name = e.name ∧ (∃ raw, normalizeOpt sd o raw = .ok e.val) ∧
+      tomlNative (dumpValue e.name e.val) = true ∧ objOk e.val = true) :
+    dump c = dumpCfg c ∧
+    ∃ c', applyFile sd c0 path (dump c) = .ok c' ∧ ∀ n, (c'.get? n).map (·.val) = (c.get? n).map (·.val) := by
+  have hd : dump c = dumpCfg c := by
+    unfold dump dumpCfg
+    apply List.map_congr_left
+    intro e he
+    obtain ⟨o, ho, hname, ⟨raw, hraw⟩, _, _⟩ := heff e he
+    rw [← hname, toml_dump_is_model_dump sd o ho raw e.val hraw]
+  refine ⟨hd, ?_⟩
+  rw [hd]
+  obtain ⟨c', h1, _, h3⟩ := applyFile_dumpCfg sd c c0 path hc hc0 (by
+    intro e he
+    obtain ⟨o, ho, hname, ⟨raw, hraw⟩, hnat, hobj⟩ := heff e he
+    rw [← hname] at hnat ⊢
+    exact toml_roundtrip sd o ho raw e.val hraw hnat hobj)
+  exact ⟨c', h1, h3⟩
+
+/-- non-vacuity of `toml_roundtrip`: structured options, a negative integer, a promoted float, a list; and
+    the two things TOML cannot carry (`None`, which `toml.dumps` drops, and objects without a string form) -/
+example :
+    normalize "/s" "cell_size" (dumpValue "cell_size" (.tuple [.int 9, .int 18])) = .ok (.tuple [.int 9, .int 18]) ∧
+    normalize "/s" "id_space" (dumpValue "id_space" (.space ⟨8, true⟩)) = .ok (.space ⟨8, true⟩) ∧
+    normalize "/s" "id_subspace" (dumpValue "id_subspace" (.sub ⟨3, 200⟩)) = .ok (.sub ⟨3, 200⟩) ∧
+    normalize "/s" "upload_method" (dumpValue "upload_method" (.medium .tempFile)) = .ok (.medium .tempFile) ∧
+    normalize "/s" "max_command_size" (dumpValue "max_command_size" (.int (-7))) = .ok (.int (-7)) ∧
+    normalize "/s" "scale" (.int 2) = .ok (.float ⟨2, 1⟩) ∧
+    normalize "/s" "scale" (dumpValue "scale" (.float ⟨2, 1⟩)) = .ok (.float ⟨2, 1⟩) ∧
+    normalize "/s" "supported_formats" (dumpValue "supported_formats" (.list [.str "png", .str "jpeg"]))
+      = .ok (.list [.str "png", .str "jpeg"]) ∧
+    tomlNative (dumpValue "background" .none) = false ∧
+    tomlNative (dumpValue "background" (.sc (.other "bytes"))) = false := by
+  refine ⟨by rfl, by rfl, by rfl, by rfl, by rfl, by rfl, by rfl, by rfl, by decide, by decide⟩
 
 /-- The hypotheses of `precedence` are satisfiable: a four-layer configuration of `max_cols`. -/
 example : ∃ cfg, construct "/s" false
